@@ -16,7 +16,14 @@ fn molecule(n: usize, salt: usize) -> Molecule {
 }
 
 fn one(out: &mut Out, n: usize, bonds: &[(usize, usize, f64)], count: &mut usize, nontrivial: &mut usize) {
-    let mut mol = molecule(n, *count);
+    let syms = palette_symbols(n, *count);
+    one_of(out, &syms, bonds, count, nontrivial)
+}
+
+/// the case for a graph on the given atoms
+fn one_of(out: &mut Out, syms: &[&'static str], bonds: &[(usize, usize, f64)], count: &mut usize, nontrivial: &mut usize) {
+    let n = syms.len();
+    let mut mol = Molecule::from_atomic_symbols(syms);
     install_bonds(&mut mol, bonds);
     let got = connectivity(&mol);
     let text = canon_conn(&got);
@@ -26,7 +33,7 @@ fn one(out: &mut Out, n: usize, bonds: &[(usize, usize, f64)], count: &mut usize
     if text != want {
         out.oracle_fail(
             &format!("connectivity is not the bond graph's: got {} want {}", text, want),
-            &format!("graph {} {}", n, bonds_text(bonds)),
+            &format!("graph {} {} on atoms {}", n, bonds_text(bonds), syms.join(",")),
         );
     }
     *count += 1;
@@ -34,7 +41,7 @@ fn one(out: &mut Out, n: usize, bonds: &[(usize, usize, f64)], count: &mut usize
     // the same graph through the bond-order matrix interface, on a molecule that already carries another graph's lists
     // (a chain, a star or the previous case's graph): the lists must be this graph's, nothing left over
     if *count % 3 == 0 && n >= 2 {
-        let mut w = Wrapper::from_atomic_symbols(&palette_symbols(n, *count));
+        let mut w = Wrapper::from_atomic_symbols(syms);
         let mut prev = vec![0.0; n * n];
         match *count % 9 { 0 => { for i in 0..(n - 1) { prev[i * n + i + 1] = 1.0; } }
                            3 => { for j in 1..n { prev[j] = 2.0; } }
@@ -60,7 +67,7 @@ fn one(out: &mut Out, n: usize, bonds: &[(usize, usize, f64)], count: &mut usize
         let want2 = canon_conn(&reference_conn(n, &uniq));
         if got2 != want2 {
             out.oracle_fail(&format!("set through the bond-order matrix on a molecule that already had bonds, the connectivity is not the bond graph's: got {} want {}", got2, want2),
-                            &format!("graph {} {} (set after another graph through set_bond_orders)", n, bonds_text(&uniq)));
+                            &format!("graph {} {} on atoms {} (set after another graph through set_bond_orders)", n, bonds_text(&uniq), syms.join(",")));
         }
     }
 }
@@ -102,6 +109,19 @@ pub fn run(out: &mut Out, seed: u64, tier: &str) {
         if !bonds.is_empty() && rng.chance(0.3) { let b = bonds[0]; bonds.push((b.1, b.0, b.2)); }
         one(out, n, &bonds, &mut count, &mut nontrivial);
     }
+    // bridged and multicentre motifs with the elements that occur in them: an atom of one element between two of another (the
+    // three-atom path X-Y-X: bifluoride, a hydride or halide bridge, a bridging carbonyl carbon), and the four-ring X-Y-X-Y with two
+    // terminal hydrogens on each X (diborane, Al2Cl6-like cores). A bond table may say such things whatever valence rules say, and the
+    // lists are still the graph's
+    let chem: Vec<&'static str> = if tier == "thorough" { vec!["H", "Li", "Be", "B", "C", "N", "O", "F", "Na", "Mg", "Al", "Si", "P", "S", "Cl", "K", "Ca", "Ti", "Fe", "Cu", "Zn", "Br", "Pd", "Pt", "I"] }
+                                  else { vec!["H", "Li", "B", "C", "N", "O", "F", "Al", "Si", "Cl", "Fe", "Pd"] };
+    let mut bridged = 0usize;
+    for x in chem.iter() { for y in chem.iter() {
+        one_of(out, &[*x, *y, *x], &[(0, 1, 1.0), (1, 2, 1.0)], &mut count, &mut nontrivial);
+        one_of(out, &[*x, *x, *y, *y, "H", "H", "H", "H"], &[(0, 2, 1.0), (2, 1, 1.0), (1, 3, 1.0), (3, 0, 1.0), (0, 4, 1.0), (0, 5, 1.0), (1, 6, 1.0), (1, 7, 1.0)], &mut count, &mut nontrivial);
+        bridged += 2;
+    } }
+    out.stat("bridged_motifs", bridged);
     // graphs that come from perception, with the atoms at real coordinates (the lists must not depend on the geometry the bonds
     // were perceived from: linear molecules and chains on an axis, planar rings, library and random molecules)
     let mut perceived = 0usize;
